@@ -317,7 +317,7 @@ func GenResultPrec(t *rapid.T, label string, around int, max int) uint {
 }
 
 func GenHist(t *rapid.T, label string) string {
-	return rapid.SampledFrom([]string{"", "", "", "acc", "cap", "stale", "hugecap", "pad"}).Draw(t, label)
+	return rapid.SampledFrom([]string{"", "", "", "acc", "cap", "stale", "hugecap", "pad", "gobpad"}).Draw(t, label)
 }
 
 // GenFinite draws a finite Spec (value, precision >= digits, mode, history).
